@@ -99,6 +99,10 @@ func checkC17(P *Prog, r *Result) {
 	// as that test's Func (C02's rule) - AddIssue applying ctx.Test's Message and IssuePath gives them to the required,
 	// coerce and post-transform issues of whatever runs next on the shared child context
 	shareRule(P, r, checkC02, "C02/current-test", nil, "C17/options-of-the-running-test-only", 2)
+	// ... and do not travel in recycled issues: an issue taken from the pool has every field written before it is handed
+	// on (C07's rule on ZogIssue) - else the Message / IssueCode / Params of the test whose issue was caught or collected
+	// show up on the next issue built with ctx.Issue()
+	shareRule(P, r, checkC07, "C07/reinit", func(o Obligation) bool { return strings.Contains(o.Construct, "#zog/internals.ZogIssue.") }, "C17/options-not-carried-by-recycled-issues", 0)
 	// ---- field-effects ----
 	for _, k := range R.Kinds {
 		kn := k.Obj().Name()
